@@ -266,7 +266,7 @@ def _read_attributes_section(
     attributes = []
     block, new_offset = _read_block_items(docstring, offset=offset, **options)
 
-    annotation: str | Expr | None = None
+    annotation: str | Expr | None
     for line_number, attr_lines in block:
         try:
             name_with_type, description = attr_lines[0].split(":", 1)
@@ -276,6 +276,7 @@ def _read_attributes_section(
 
         description = "\n".join([description.lstrip(), *attr_lines[1:]]).rstrip("\n")
 
+        annotation = None
         if " " in name_with_type:
             name, annotation = name_with_type.split(" ", 1)
             annotation = annotation.strip("()")
